@@ -2008,8 +2008,9 @@ static void get_user_data (interactive_t* ip, io_event_t* evt) {
             char *nl, *str;
             char *p = ip->text + ip->text_start;
 
-            memcpy (p, buf, num_bytes);
-            ip->text_end = ip->text_start + num_bytes;
+            /* append to the partial line kept from earlier reads (text_space is what is left after text_end) */
+            memcpy (ip->text + ip->text_end, buf, num_bytes);
+            ip->text_end += num_bytes;
             while ((nl = memchr (p, '\n', ip->text_end - ip->text_start)))
               {
                 ip->text_start = (nl + 1) - ip->text;
@@ -2032,6 +2033,13 @@ static void get_user_data (interactive_t* ip, io_event_t* evt) {
                   {
                     p = nl + 1;
                   }
+              }
+            if (ip->text_start > 0 && ip->text_start < ip->text_end)
+              {
+                /* keep the partial line at the start of the buffer so that its space is not lost */
+                memmove (ip->text, ip->text + ip->text_start, ip->text_end - ip->text_start);
+                ip->text_end -= ip->text_start;
+                ip->text_start = 0;
               }
             break;
           }
